@@ -1108,6 +1108,8 @@ int do_rename (char *fr, char *t, int flag) {
       while (*p == '/' && (p > from))
         p--;
       n = p - from + 1;
+      if (n >= (ptrdiff_t)sizeof (newfrom))
+        error ("File path too long.");
       memcpy (newfrom, from, n);
       newfrom[n] = 0;
       from = newfrom;
@@ -1175,7 +1177,11 @@ copy_file (char *from, char *to)
       else
         cp = from;
 
-      sprintf (newto, "%s/%s", to, cp);
+      if (snprintf (newto, sizeof (newto), "%s/%s", to, cp) >= (int)sizeof (newto))
+        {
+          close (from_fd);
+          error ("File path too long.");
+        }
       to = newto;
     }
 
